@@ -141,3 +141,31 @@ pub fn descriptor_to_raw(d: crate::util::heap::space_descriptor::SpaceDescriptor
     // SpaceDescriptor is #[repr(transparent)] over usize
     unsafe { std::mem::transmute::<crate::util::heap::space_descriptor::SpaceDescriptor, usize>(d) }
 }
+
+/// All objects currently held by a treadmill (`all` includes the collection
+/// nursery and the from-space), one entry per set membership.
+pub fn treadmill_objects(
+    tm: &TreadMill,
+    all: bool,
+) -> Vec<crate::util::ObjectReference> {
+    struct Collect(Vec<crate::util::ObjectReference>);
+    impl crate::util::object_enum::ObjectEnumerator for Collect {
+        fn visit_object(&mut self, object: crate::util::ObjectReference) {
+            self.0.push(object);
+        }
+        fn visit_address_range(&mut self, _start: Address, _end: Address) {
+            unreachable!()
+        }
+    }
+    let mut c = Collect(vec![]);
+    tm.enumerate_objects(&mut c, all);
+    c.0
+}
+
+/// `util::alloc::allocator` alignment helpers (crate-private module, public functions).
+pub mod alloc {
+    pub use crate::util::alloc::allocator::{
+        align_allocation, align_allocation_inner, align_allocation_no_fill,
+        get_maximum_aligned_size, get_maximum_aligned_size_inner,
+    };
+}
